@@ -27,6 +27,7 @@ from ..ref import nt
 from ._c14_int import CURVE_PRIMES
 
 SMALLP = nt.sieve(1000)
+CFG = "default"         # set by _c14_sub in a child process running under another integer back-end
 _SIEVE_LIMIT = 1 << 17
 _FLAGS = None
 
@@ -168,9 +169,12 @@ FN_NAMES = {"tpp": "Primality.test_probable_prime", "mr": "Primality.miller_rabi
             "lucas": "Primality.lucas_test", "isPrime": "number.isPrime"}
 
 
-def _call(fn, n, iters, tape):
+def _call(fn, n, iters, tape, wrap=False):
     from Crypto.Math import Primality
     from Crypto.Util import number
+    if wrap:
+        from Crypto.Math.Numbers import Integer
+        n = Integer(n)
     if fn == "tpp":
         return Primality.test_probable_prime(n, randfunc=tape)
     if fn == "mr":
@@ -182,8 +186,10 @@ def _call(fn, n, iters, tape):
     raise ValueError(fn)
 
 
-def prim_case(fn, n, strat, iters, acc, family="", liar_limit=300):
-    """-> list of violation keys"""
+def prim_case(fn, n, strat, iters, acc, family="", liar_limit=300, wrap=False):
+    """-> list of violation keys   (wrap: the candidate is handed over as Integer instead of int)"""
+    if CFG != "default" and fn == "isPrime":
+        return []                       # the legacy test never touches the Integer classes: parent process only
     acc.count("evaluations")
     acc.count("prim_cases")
     if fn == "lucas":
@@ -193,18 +199,18 @@ def prim_case(fn, n, strat, iters, acc, family="", liar_limit=300):
     else:
         tape = BaseTape(n, strategy(n, strat, n - 2, liar_limit=liar_limit)) if n >= 7 else NullTape()
     case = {"part": "prim", "fn": fn, "n": n, "strat": list(strat) if isinstance(strat, (list, tuple)) else strat,
-            "iters": iters, "family": family, "liar_limit": liar_limit}
+            "iters": iters, "family": family, "liar_limit": liar_limit, "wrap": wrap, "cfg": CFG}
     name = FN_NAMES[fn]
     try:
-        r = _call(fn, n, iters, tape)
+        r = _call(fn, n, iters, tape, wrap)
     except Exception as e:  # noqa
         key = "C14/primality/%s/raises-%s@%s" % (fn, type(e).__name__, exc_site(e))
         acc.violation(key, "%s(%s) raised %s: %s instead of a verdict" % (name, short(n), type(e).__name__, e),
-                      case, size=n.bit_length())
+                      case, size=_sz(n))
         return [key]
     if not (isinstance(r, int) and r in (0, 1)):
         key = "C14/primality/%s/bad-return" % fn
-        acc.violation(key, "%s(%s) returned %r" % (name, short(n), r), case, size=n.bit_length())
+        acc.violation(key, "%s(%s) returned %r" % (name, short(n), r), case, size=_sz(n))
         return [key]
     pp = bool(r)
     prime = truth(n)
@@ -214,15 +220,19 @@ def prim_case(fn, n, strat, iters, acc, family="", liar_limit=300):
         case["strat"] = list(tape.served)
     cls = "prime" if prime else ("unit" if n < 2 else "composite")
     acc.seen("prim_classes", (fn, cls, pp, family.split(" ")[0] or "range", strat if isinstance(strat, str) else "explicit",
-                              min(len(used), 3) if used is not None else -1))
-    what0 = "%s(%s%s)%s" % (name, short(n), ", %d" % iters if fn == "mr" else "",
-                            " with Miller-Rabin bases %s" % short(used[:6], 30) if used else "")
+                              min(len(used), 3) if used is not None else -1, wrap, CFG))
+    what0 = "%s%s(%s%s)%s" % ("[integer back-end configuration %s] " % CFG if CFG != "default" else "", name,
+                              ("Integer(%s)" if wrap else "%s") % short(n), ", %d" % iters if fn == "mr" else "",
+                              " with Miller-Rabin bases %s" % short(used[:6], 30) if used else "")
+    if fn == "tpp" and used and not prime and n > 541 and any(n % q == 0 for q in SMALLP[:100]):
+        acc.observe("Primality.test_probable_prime draws Miller-Rabin bases for candidates divisible by one of the first "
+                    "100 primes: its trial division is a lazy map() object that never runs (verdicts are unaffected)")
     if prime:
         if not pp:
             key = "C14/primality/prime-declared-composite/%s" % fn
             acc.violation(key, "%s declares the prime %s COMPOSITE%s" % (what0, short(n),
                           " [%s]" % family if family else ""), case, script=_script(fn, n, iters, used),
-                          size=n.bit_length())
+                          size=_sz(n))
             return [key]
         acc.count("prim_primes_accepted")
         return []
@@ -230,7 +240,7 @@ def prim_case(fn, n, strat, iters, acc, family="", liar_limit=300):
         if pp:
             key = "C14/primality/%d-declared-prime" % n
             acc.violation(key, "%s returns PROBABLY_PRIME for %d, which is not a prime" % (what0, n), case,
-                          script=_script(fn, n, iters, used), size=n)
+                          script=_script(fn, n, iters, used), size=_sz(n))
             return [key]
         return []
     # ---- composite ---------------------------------------------------------
@@ -246,7 +256,7 @@ def prim_case(fn, n, strat, iters, acc, family="", liar_limit=300):
         key = "C14/primality/composite-declared-prime/lucas/not-a-lucas-pseudoprime"
         acc.violation(key, "%s declares the composite %s PROBABLY_PRIME although U_(n+1) != 0 (mod n) for Selfridge's "
                       "parameters (reference: FIPS 186-4 C.3.3)%s" % (what0, short(n), " [%s]" % family if family else ""),
-                      case, script=_script(fn, n, iters, used), size=n.bit_length())
+                      case, script=_script(fn, n, iters, used), size=_sz(n))
         return [key]
     if used is None:
         acc.error("%s(%s): the randfunc tape was not consumed in whole units (%d bytes of unit %d): the harness no "
@@ -258,20 +268,20 @@ def prim_case(fn, n, strat, iters, acc, family="", liar_limit=300):
         key = "C14/primality/composite-declared-prime/%s/witness-ignored" % fn
         acc.violation(key, "%s declares the composite %s probably prime although base %d is a Miller-Rabin witness%s"
                       % (what0, short(n), witness[0], " [%s]" % family if family else ""), case,
-                      script=_script(fn, n, iters, used), size=n.bit_length())
+                      script=_script(fn, n, iters, used), size=_sz(n))
         return [key]
     if fn == "mr" and len(used) < iters or (fn in ("tpp", "isPrime") and not used):
         key = "C14/primality/composite-declared-prime/%s/too-few-bases" % fn
         acc.violation(key, "%s declares the composite %s probably prime after drawing only %d base(s)%s"
                       % (what0, short(n), len(used), " [%s]" % family if family else ""), case,
-                      script=_script(fn, n, iters, used), size=n.bit_length())
+                      script=_script(fn, n, iters, used), size=_sz(n))
         return [key]
     if fn == "tpp" and not nt.lucas_probable_prime(n):
         key = "C14/primality/composite-declared-prime/tpp/lucas-should-reject"
         acc.violation(key, "%s declares the composite %s probably prime: all %d drawn bases are strong liars, but n is not "
                       "a Lucas pseudoprime, the Lucas step must reject it%s"
                       % (what0, short(n), len(used), " [%s]" % family if family else ""), case,
-                      script=_script(fn, n, iters, used), size=n.bit_length())
+                      script=_script(fn, n, iters, used), size=_sz(n))
         return [key]
     # legitimate: every drawn base is a strong liar (and n is a Lucas pseudoprime for the combined test)
     acc.count("prim_legit_pseudoprime_passes")
@@ -283,11 +293,19 @@ def prim_case(fn, n, strat, iters, acc, family="", liar_limit=300):
     return []
 
 
+def _sz(n):
+    """simplest counter-example first; on a tie prefer the one found in the driver process"""
+    return n.bit_length() + (0 if CFG == "default" else 0.5)
+
+
 def _script(fn, n, iters, used):
     call = {"tpp": "Primality.test_probable_prime(n, randfunc=tape)",
             "mr": "Primality.miller_rabin_test(n, %d, randfunc=tape)" % iters,
             "lucas": "Primality.lucas_test(n)", "isPrime": "number.isPrime(n, randfunc=tape)"}[fn]
-    return ("# stand-alone reproduction (needs only pycryptodome)\nimport os\n"
+    how = {"default": "", "nogmp": "# run with the environment variable PYCRYPTODOME_DISABLE_GMP=1\n",
+           "native": "import sys\nsys.modules['Crypto.Math._IntegerGMP'] = sys.modules['Crypto.Math._IntegerCustom'] = None"
+                     "   # pure-Python back-end\n"}[CFG]
+    return ("# stand-alone reproduction (needs only pycryptodome)\n" + how + "import os\n"
             "from Crypto.Math import Primality\nfrom Crypto.Util import number\n"
             "n = %d\ntape = os.urandom   # any randomness%s\nprint(%s)   # 1/True = probably prime, 0/False = composite\n"
             % (n, "; the harness drew the bases %r" % (used[:8],) if used else "", call))
@@ -322,7 +340,7 @@ FAMILIES = ("carmichael", "chernick", "spsp2", "psi", "pq-spsp", "lucas-psp", "p
 def family(name, quick):
     """-> list of (n, note)"""
     if name == "carmichael":
-        return [(n, "") for n in nt.carmichael_numbers(10 ** 6 if quick else 10 ** 7)]
+        return [(n, "") for n in nt.carmichael_numbers(10 ** 6 if quick else 10 ** 8)]
     if name == "chernick":
         out = [(n, "k=%d" % k) for k, n in nt.chernick(600 if quick else 2000)]
         for k0 in ((2 ** 20,) if quick else (2 ** 20, 2 ** 40, 2 ** 64)):
@@ -409,6 +427,9 @@ def family_worker(name, quick, acc):
         for it, st in MR_GRID:
             prim_case("mr", n, st, it, acc, fam, 3000)
         prim_case("lucas", n, None, 0, acc, fam)
+        prim_case("tpp", n, "seed0", 0, acc, fam, 3000, wrap=True)
+        prim_case("mr", n, "small", 2, acc, fam, 3000, wrap=True)
+        prim_case("lucas", n, None, 0, acc, fam, wrap=True)
         for st in ("small", "seed0", "liar"):
             prim_case("isPrime", n, st, 0, acc, fam, 3000)
         if name == "psi":
@@ -436,6 +457,8 @@ def primes_worker(quick, acc):
         for it, st in ((1, "small"), (5, "seed0"), (2, "top")):
             prim_case("mr", p, st, it, acc, "prime " + note)
         prim_case("lucas", p, None, 0, acc, "prime " + note)
+        prim_case("tpp", p, "seed1", 0, acc, "prime " + note, wrap=True)
+        prim_case("lucas", p, None, 0, acc, "prime " + note, wrap=True)
     acc.sample({"part": "primality-big-primes", "count": len(big_primes(quick))})
 
 
@@ -486,7 +509,7 @@ def gen_case(fn, bits, label, acc, extra=None):
     from Crypto.Util import number
     acc.count("evaluations")
     acc.count("gen_cases")
-    case = {"part": "gen", "fn": fn, "bits": bits, "label": label, "extra": extra}
+    case = {"part": "gen", "fn": fn, "bits": bits, "label": label, "extra": extra, "cfg": CFG}
     flt = (lambda x: int(x) % 4 == 3)
 
     def call():
@@ -509,12 +532,14 @@ def gen_case(fn, bits, label, acc, extra=None):
 
     def viol(kind, text):
         key = "C14/primegen/%s/%s" % (base, kind)
-        acc.violation(key, "%s(%s bits, tape %r): %s" % (fn, bits, label, text), case, size=abs(bits))
+        acc.violation(key, "%s%s(%s bits, tape %r): %s" % ("[integer back-end configuration %s] " % CFG if CFG != "default"
+                                                       else "", fn, bits, label, text), case,
+                      size=abs(bits) + (0 if CFG == "default" else 0.5))
         keys.append(key)
     try:
         p = call()
     except ValueError as e:
-        acc.seen("gen_classes", (fn, "refused", valid))
+        acc.seen("gen_classes", (fn, "refused", valid, CFG))
         if valid:
             viol("refuses-valid-size", "raises ValueError(%s)" % e)
         return keys
@@ -525,8 +550,8 @@ def gen_case(fn, bits, label, acc, extra=None):
     if base == "generate_probable_prime" and bits < 160:
         viol("accepts-undersized-request", "documented 'It must be at least 160', returned %s" % short(p))
         return keys
-    acc.seen("gen_classes", (fn, "generated", bits if bits < 70 else bits % 8))
-    acc.seen("gen_sizes", (base, bits))
+    acc.seen("gen_classes", (fn, "generated", bits if bits < 70 else bits % 8, CFG))
+    acc.seen("gen_sizes", (base, bits, CFG))
     if p.bit_length() != bits:
         viol("wrong-bit-size", "returned %s of %d bits" % (short(p), p.bit_length()))
     if not nt.is_prime(p):
@@ -644,6 +669,24 @@ def legacy_worker(sh, acc):
     acc.sample({"part": "legacy", "shard": [str(s) for s in sh[1:-1]]})
 
 
+def child_shards(quick):
+    """the shards repeated in child processes under the other two integer back-ends -> list of batches"""
+    fam = [("prim", "family", f, quick) for f in FAMILIES]
+    batches = [[s] for s in fam] + [[("prim", "primes", quick)]]
+    top = 2 ** 12 if quick else 2 ** 17
+    step = 256 if quick else 1024
+    rng = [("prim", "range", a, min(a + step, top), quick) for a in range(0, top, step)]
+    batches += [rng[i:i + 4] for i in range(0, len(rng), 4)]
+    ab = 128 if quick else 1024
+    abs_ = [("prim", "allbases", a, a + 32, quick) for a in range(0, ab, 32)]
+    batches += [abs_[i::4] for i in range(4)]
+    gen = [s for s in gen_shards(quick) if s[1].startswith("generate_")]
+    if quick:
+        gen = [s for s in gen if s[2] in (159, 160, 192, 256)]
+    batches += [gen[i::4] for i in range(4) if gen[i::4]]
+    return batches
+
+
 def prim_shards(quick):
     top = 2 ** 13 if quick else 2 ** 17
     step = 256 if quick else 1024
@@ -651,7 +694,7 @@ def prim_shards(quick):
                                           "prime-squares", "psi", "small-factor-times-big-prime")]
     sh.append(("prim", "primes"))
     sh += [("prim", "range", a, min(a + step, top)) for a in range(0, top, step)]
-    ab = 256 if quick else 1024
+    ab = 256 if quick else 2048
     sh += [("prim", "allbases", a, a + 32) for a in range(0, ab, 32)]
     return [s + (quick,) for s in sh]
 
@@ -669,3 +712,14 @@ def prim_worker(sh, acc):
         allbases_worker(sh[2], sh[3], acc)
     else:
         acc.error("unknown prim shard %r" % (sh,))
+
+
+def replay_case(case, acc):
+    """re-run one recorded primality / generation case in THIS process (the caller selects the process)"""
+    if case["part"] == "prim":
+        prim_case(case["fn"], case["n"], case["strat"], case["iters"], acc, case.get("family", ""),
+                  case.get("liar_limit", 300), case.get("wrap", False))
+    elif case["part"] == "gen":
+        gen_case(case["fn"], case["bits"], case["label"], acc, case.get("extra"))
+    else:
+        acc.error("unknown child replay part %r" % (case["part"],))
